@@ -49,7 +49,7 @@ ANYSUBST = ("single", "multiple", "ligature")
 EXCLUDE_F1 = True  # inline contextual ligature rules sharing one ligature lookup (sequence prefix of another)
 EXCLUDE_F3 = True  # Builder.set_script early return: script statement ignored when languagesystems == {(script, dflt)}
 EXCLUDE_F4 = True  # `sub a' from [...]` without context is compiled as a plain (non-contextual) alternate lookup
-EXCLUDE_F2 = True  # asFea of `ignore pos a' b';` (several marked glyphs, no context) loses the marks
+EXCLUDE_F2 = False  # (repaired in /repo by a fix: commit; kept as a switch) asFea of `ignore pos a' b';` (several marked glyphs, no context) loses the marks
 
 _skeleton = None
 
